@@ -100,6 +100,11 @@ let () =
              let b x = x = "1" in
              Printf.printf "%s OK %s\n" id (hex_of_bytes (enc_fheader_of (n_of_dec wl) (b cs) (b ck) (b nd) (b ml) (n_of_dec pl) (n_of_dec di)))
            | _ -> Printf.printf "%s ERR badfhdr 0\n" id)
+        end else if getstr "skip=" <> None then begin
+          (* skippable frame writer: skip=<variant> ; dict field = payload hex *)
+          (match getstr "skip=" with
+           | Some v -> Printf.printf "%s OK %s\n" id (hex_of_bytes (enc_skippable (n_of_dec v) (bytes_of_hex dhex)))
+           | None -> ())
         end else if getstr "lzblocks=" <> None then begin
           (* multi-block model frame: lzblocks=<wlog>:<ck>  ; dict field = blocks separated by '_':
              R<hex> | E<v>.<n> | L<litshex|->.<ll.ml.ofv;...>  (hex digits only, so '_' '.' ';' are free separators) *)
